@@ -16,6 +16,7 @@ fn registry() -> Vec<PartDesc> {
     v.push(desc::<props::c06::C06>("exploration"));
     v.push(desc::<props::c09::C09>("exploration"));
     v.push(desc::<props::c12::C12>("exploration"));
+    v.push(desc::<props::c08::C08>("fault_enumeration"));
     #[cfg(feature = "async-trait")]
     v.push(desc::<props::c01::C01At>("exploration"));
     #[cfg(not(feature = "async-trait"))]
